@@ -204,6 +204,8 @@ type LentImpl struct {
 	Nest *LentImpl
 	// ActivateYields forced scheduling decisions are taken inside Activate.
 	ActivateYields int
+	// RefuseEvery > 0: echo answers one token in RefuseEvery with an error
+	RefuseEvery int
 
 	// Act is the activation the object received.
 	Act bus.Activation
@@ -257,8 +259,17 @@ func (l *LentImpl) Terminated() int {
 
 func (l *LentImpl) Echo(tok probe.Token) (probe.Token, error) {
 	n := l.Env.Executed("echo", l.Obj, tokOf(tok).Key(), shortText(tok.Text))
+	if LentRefuses(l.RefuseEvery, tok.Seq) {
+		return tok, fmt.Errorf("lent object %d refuses token %d", l.Obj, tok.Seq)
+	}
 	tok.Text = fmt.Sprintf("%s|o%d|x%d", tok.Text, l.Obj, n)
 	return tok, nil
+}
+
+// LentRefuses tells whether a lent object told to refuse one token in every
+// answers the token numbered seq with an error (after having run).
+func LentRefuses(every int, seq int32) bool {
+	return every > 0 && int(seq)%every == every-1
 }
 
 // World is a running server with a probe service.
